@@ -31,6 +31,16 @@ func init() {
 		open := func(a *chain.Actor, col int64, lev string) *chain.TxRecord {
 			return w.Tx(a, &lptypes.MsgOpen{Creator: a.S(), CollateralAsset: "uusdc", CollateralAmount: math.NewInt(col), AmmPoolId: 1, Leverage: chain.Dec(lev), StopLossPrice: math.LegacyZeroDec()})
 		}
+		// leveragelp has its own, lower front-door limit (stablestake MaxLeverageRatio, 0.7 by default, on
+		// borrowed + whole position size); two jobs out of three lift it so that the vault's own 90 % cap
+		// in Borrow is the limit that binds
+		if c.Job.Index%3 != 2 {
+			sp0 := w.App.StablestakeKeeper.GetParams(w.ReadCtx())
+			sp0.MaxLeverageRatio = chain.Dec("1000")
+			if w.GovExec("front-door ratio lifted", &sstypes.MsgUpdateParams{Authority: w.Gov, Params: &sp0}) {
+				c.Ev("front_door_ratio_lifted")
+			}
+		}
 		// borrow up to and across the 90 % cap: the vault holds S/20 * 1.6
 		vault := S / 20 * 8 / 5
 		for i, frac := range []int64{30, 30, 20, 8, 5, 3, 1} {
@@ -41,6 +51,36 @@ func init() {
 					c.Ev("borrow_accepted")
 				} else {
 					c.Ev("borrow_refused")
+				}
+			}
+		}
+		// boundary probes: borrows that would end just above, exactly at and just below the cap, computed
+		// from the state the handler will see (leverage 2 borrows exactly the collateral)
+		for i, over := range []int64{9000, 5000, 2000, 100, 1, 0} { // over the headroom, in 1e-6 of the vault's value, then 1 unit, then exact
+			if w.Dead {
+				break
+			}
+			ctx := w.ReadCtx()
+			p := w.App.StablestakeKeeper.GetParams(ctx)
+			cash := w.App.BankKeeper.GetBalance(ctx, w.App.AccountKeeper.GetModuleAddress(sstypes.ModuleName), p.DepositDenom).Amount
+			head := p.TotalValue.MulRaw(9).QuoRaw(10).Sub(p.TotalValue.Sub(cash))
+			if !head.IsPositive() {
+				c.Ev("no_headroom_for_boundary_probe")
+				break
+			}
+			amt := head
+			switch {
+			case over > 1:
+				amt = head.Add(p.TotalValue.MulRaw(over).QuoRaw(1_000_000))
+			case over == 1:
+				amt = head.AddRaw(1)
+			}
+			b := w.Step(5, open(u[3+i%4], amt.Int64(), "2"))
+			if !w.Dead {
+				if b.Txs[1].OK() {
+					c.Ev("boundary_borrow_accepted")
+				} else {
+					c.Ev("boundary_borrow_refused")
 				}
 			}
 		}
